@@ -15,5 +15,6 @@ Conforms(in, obs) ==
 
 Describe(in) == [outcomes |-> SetToSeq(RefOutcomes(in))]
 
+Beyond(in) == FALSE
 INSTANCE TraceCheck
 =============================================================================
